@@ -171,6 +171,12 @@ def run(tier, seed):
         sh = rand_shape(rng, 3)
         sg, rt, detail = infer_case(sh, 1000 + i)
         infer_tr.append(({'mode': 'infer', 'ts': (), 'sigv': sg, 'parts': (), 'shape': sh, 'rt': rt}, detail, 1000 + i))
+    # wide values: inferred signatures of 127, 128, 200 and 255 characters (the length travels in ONE byte)
+    for j, width in enumerate((125, 126, 198, 253)):
+        for elem in (('int', 'i32'), ('str',)):
+            sh = ('tuple', (elem,) * width)
+            sg, rt, detail = infer_case(sh, 900 + j)
+            infer_tr.append(({'mode': 'infer', 'ts': (), 'sigv': sg, 'parts': (), 'shape': sh, 'rt': rt}, detail, 900 + j))
     cc = 'CONSTANTS\n MaxSig = 1\n Depth = 1\n'
     for label, batch, pred in (('split', split_tr, 'TraceSplit'), ('infer', infer_tr, 'TraceInfer')):
         traces = [[({'n': 'Init'}, st)] for st, _, _ in batch]
